@@ -46,7 +46,7 @@ type Proof struct {
 }
 
 func (p *Proof) IsValid() bool {
-	if p == nil {
+	if p == nil || p.Commitment == nil {
 		return false
 	}
 	if p.A.IsIdentity() || p.B.IsIdentity() || p.C.IsIdentity() {
